@@ -606,6 +606,9 @@ func (uconn *UConn) MarshalClientHelloNoECH() error {
 	for _, ext := range uconn.Extensions {
 		if pe, ok := ext.(*UtlsPaddingExtension); !ok {
 			// If not padding - just add length of extension to total length
+			if ext.Len() > 4+0xffff {
+				return errors.New("utls: extension body does not fit its 16-bit length prefix")
+			}
 			extensionsLen += ext.Len()
 		} else {
 			// If padding - process it later
@@ -621,6 +624,10 @@ func (uconn *UConn) MarshalClientHelloNoECH() error {
 		// determine padding extension presence and length
 		paddingExt.Update(headerLength + 4 + extensionsLen + 2)
 		extensionsLen += paddingExt.Len()
+	}
+
+	if extensionsLen > 0xffff {
+		return errors.New("utls: extensions do not fit the 16-bit extensions length of a ClientHello")
 	}
 
 	helloLen := headerLength
